@@ -36,7 +36,9 @@ type DialInfo struct {
 // Net is the simulated network of one run.
 type Net struct {
 	sim       *simrt.Sim
-	listeners map[string]*Listener
+	// a slice, not a map: the runtime's map functions report their accesses to the race
+	// detector whoever calls them, and the bookkeeping lock that guards this is hidden from it
+	listeners []*Listener
 	// Policy decides the outcome of each dial (nil = accept when a listener
 	// exists, refuse otherwise). It may draw from the tape and record probes.
 	Policy func(d DialInfo) (Verdict, time.Duration)
@@ -53,7 +55,7 @@ type Net struct {
 //
 //go:norace
 func New(s *simrt.Sim) *Net {
-	n := &Net{sim: s, listeners: map[string]*Listener{}, nextPort: 40000}
+	n := &Net{sim: s, nextPort: 40000}
 	s.Data["simnet"] = n
 	return n
 }
@@ -115,7 +117,7 @@ func (n *Net) dial(network, address string, timeout time.Duration) (net.Conn, er
 	n.Dials++
 	n.nextPort++
 	local := "10.250.0.1:" + strconv.Itoa(n.nextPort)
-	l := n.listeners[address]
+	l := n.listener(address)
 	s.BkUnlock()
 	v, d := Accept, time.Duration(0)
 	if n.Policy != nil {
@@ -164,6 +166,30 @@ func (n *Net) dial(network, address string, timeout time.Duration) (net.Conn, er
 	return c, nil
 }
 
+// listener: bookkeeping lock held.
+//
+//go:norace
+func (n *Net) listener(addr string) *Listener {
+	for _, l := range n.listeners {
+		if l.addr == addr {
+			return l
+		}
+	}
+	return nil
+}
+
+// dropListener: bookkeeping lock held.
+//
+//go:norace
+func (n *Net) dropListener(addr string) {
+	for i, l := range n.listeners {
+		if l.addr == addr {
+			n.listeners = append(n.listeners[:i:i], n.listeners[i+1:]...)
+			return
+		}
+	}
+}
+
 // Listener is a simulated listening socket.
 type Listener struct {
 	net     *Net
@@ -178,7 +204,8 @@ type Listener struct {
 func (n *Net) Listen(addr string) *Listener {
 	l := &Listener{net: n, addr: addr}
 	n.sim.BkLock()
-	n.listeners[addr] = l
+	n.dropListener(addr)
+	n.listeners = append(n.listeners, l)
 	n.sim.BkUnlock()
 	return l
 }
@@ -211,7 +238,7 @@ func (l *Listener) Close() error {
 	s := l.net.sim
 	s.BkLock()
 	l.closed = true
-	delete(l.net.listeners, l.addr)
+	l.net.dropListener(l.addr)
 	s.BkUnlock()
 	s.Kick()
 	return nil
